@@ -7,14 +7,14 @@ BIN=$(rustc +nightly --print sysroot)/lib/rustlib/x86_64-unknown-linux-gnu/bin
 T=/verif/harness/target-cov
 OUT=$(mktemp -d /tmp/verif-cov.XXXXXX)
 cd /verif/harness || exit 1
-RUSTFLAGS="-Cinstrument-coverage" CARGO_TARGET_DIR=$T cargo +nightly build --release --offline --bins 2>&1 | tail -1
+LLVM_PROFILE_FILE=$OUT/build-%p.profraw RUSTFLAGS="-Cinstrument-coverage" CARGO_TARGET_DIR=$T cargo +nightly build --release --offline --bins 2>&1 | tail -1
 for p in C01 C02 C03 C04 C05 C06 C09 C10 C11 C12 C13 C14 C17 C18 C19 C20; do
   LLVM_PROFILE_FILE=$OUT/mon-$p-%p.profraw $T/release/mon $p --tier quick --seed 1 --shard 0/16 --budget-s ${1:-6} > /dev/null 2>&1 &
 done; wait
 for p in C07 C08 C15 C16; do
   LLVM_PROFILE_FILE=$OUT/par-$p-%p.profraw $T/release/par $p --tier quick --seed 1 --shard 0/16 --budget-s ${1:-6} > /dev/null 2>&1 &
 done; wait
-$BIN/llvm-profdata merge -sparse $OUT/*.profraw -o $OUT/all.profdata
+$BIN/llvm-profdata merge -sparse $OUT/mon-*.profraw $OUT/par-*.profraw -o $OUT/all.profdata
 $BIN/llvm-cov report $T/release/mon -object $T/release/par -instr-profile=$OUT/all.profdata /repo/src 2>/dev/null | awk '{print $1, $8, $9, $10}'
 echo "--- lines of fasta.rs / fastq.rs / parallel.rs / lib.rs / policy.rs never executed:"
 $BIN/llvm-cov show $T/release/mon -object $T/release/par -instr-profile=$OUT/all.profdata /repo/src/fasta.rs /repo/src/fastq.rs /repo/src/parallel.rs /repo/src/lib.rs /repo/src/policy.rs -show-line-counts-or-regions 2>/dev/null | grep -E "^(/repo| +[0-9]+\| +0\|)" | grep -v "^ *[0-9]*| *0| *[})]*;* *$"
